@@ -74,6 +74,7 @@ type Ctx struct {
 	mustMemo   map[*ssa.Function]map[string]bool
 	lenPres    map[[2]any]bool
 	lenRes     map[*ssa.Function]int
+	fieldSums  map[*ssa.Function]*fieldSumT
 	drainOK    *bool
 	drainWhy   string
 	nnMemo     map[ssa.Value]bool
